@@ -130,6 +130,67 @@ CLAIMS = {
   "exponentially in the number of queries; dishonest folding / proximity gaps; random-oracle step). The harness runs one instance per "
   "high-degree input and does not measure the decay.",
   "Lean 4 machine-checked proof (collision-extraction, partial on the probabilistic clause) + correspondence check", "7/C07"),
+
+ 'C01': ("proof",
+  "PARTIAL by nature. Lean theorems (Props/C01.lean) for ARBITRARY layout ops and hash instances: StarkProof::verify's model accepts IF AND "
+  "ONLY IF every check of the protocol succeeded (config valid, public input valid, OODS equation, PoW, the three trace/composition "
+  "decommitments, FRI) — so no vector length or configuration number bypasses a check; forced shapes (exactly MASK_SIZE+CONSTRAINT_DEGREE oods "
+  "values, decommitment lengths = columns x queries, composition column count forced to CONSTRAINT_DEGREE, last layer 2^bound); the "
+  "composition values checked at the OODS point and the ones the DEEP quotient subtracts are the SAME vector entries; blow-up >= 2, FRI input "
+  "domain = evaluation domain 2^(t+c), FRI degree bound = trace length, t+c <= 64, generators of exact order (C12), 1..48 strictly increasing "
+  "in-range queries; the FRI input values are the DEEP combination of exactly the rows hashed by table_decommit and the absorbed oods values "
+  "with coefficients alpha^i drawn after them (C08). Tied to the code by full-pipeline correspondence (real verify vs the Lean pipeline model: "
+  "translated AIR evaluators, Lean hashes) on honest proofs and on FORGED proofs for false statements (zero-trace universal forger with/without "
+  "oods splice, corrupted FRI paths, parameter decoupling), which must be rejected.",
+  "NOT proved and not provable with this toolchain (DESIGN section 10): STARK/FRI soundness proper — that a prover without a satisfying trace "
+  "fails some check except with negligible probability (FRI proximity gaps, DEEP-ALI, Fiat-Shamir in the random-oracle model). The theorems stop at "
+  "'acceptance factors through every IOP check with undecoupled parameters'. Adaptive provers are sampled by the forgers and the C02 sweep only.",
+  "Lean 4 machine-checked proof (partial: IOP soundness not formalised) + full-pipeline correspondence + forgers", "7/C01"),
+ 'C03': ("proof",
+  "PARTIAL: 'every proof Stone can produce' is not quantifiable without a prover model. Lean theorems (Props/C03.lean): acceptance under a "
+  "static layout's ops implies the proof's layout code and segment count are that layout's; the seven TRANSLATED layout codes are pairwise "
+  "distinct, so no proof is accepted by two layout builds; the returned pair is the Pedersen chain of the first programLen / last outputLen "
+  "main-page cells, which sit at the consecutive program / output addresses; the verdict is a function of the proof value and unchanged by "
+  "appended unused witness elements. The MATRIX (a test, labelled so): 25 shipped Stone proofs + fixture x 7 layouts x 2 builds (quick) / 8 "
+  "builds (thorough) through the real parser + CLI conversion + verify, expected verdict from the proof's own parameters (layout, Stone "
+  "version, PoW hash, commitment hash iff a masked Merkle layer exists); own-layout proofs also through the Lean pipeline model (same "
+  "verdict and same returned pair, incl. masked Blake2s layers) and through a serde round trip.",
+  "serde and the regex parser are exercised, not modelled. The dynamic layout's proof is checked on the real code only.",
+  "Lean 4 machine-checked proof (partial) + build/proof matrix on the real code + pipeline model agreement", "7/C03"),
+ 'C14': ("proof",
+  "Lean theorems (Props/C14.lean) over the generic static-layout model instantiated by data TRANSLATED from the Rust on every run (constants and "
+  "each layout's builtin table: segment, row ratio, cells per instance): validate_public_input = Ok <-> PublicInputOK over natural numbers (step "
+  "count x component height = trace length, segment count, layout code, range-check bounds, and for every builtin: row ratio divides the trace "
+  "length, usage is a whole number of instances and at most trace/ratio) — exact, via uses_field_div (how field division enforces 'whole "
+  "number'); verify_public_input = Ok (a,b) <-> the first programLen cells are at initial_pc+i, the last outputLen cells at output_begin+i, "
+  "the page is long enough, and a, b are their Pedersen chains; shifted addresses / short pages are rejected; chain binding in "
+  "collision-extraction form; neither function panics. Tied to the code on all six static layouts (real vs model vs an independent Python "
+  "transcription) with boundary usages for every builtin, short traces, address perturbations, truncations, swaps; dynamic layout: real "
+  "code vs oracle for verify_public_input.",
+  "WellFormed(D) is proved for the recursive layout's generated data (others: same shape, exercised by the correspondence). Dynamic layout validation (check_asserts) is not modelled.",
+  "Lean 4 machine-checked proof over a translator-instantiated model + correspondence check", "7/C14"),
+ 'C17': ("proof",
+  "PARTIAL. Lean theorems (Props/C17.lean): every model function is total (termination checked by Lean); after config validation every loop "
+  "bound that derives from a NUMERIC field is a constant — <= 48 query samples, <= 14 FRI rounds, coset loops <= 16, exponentiation <= 256 "
+  "squarings, diluted product 15 steps — and every other loop is bounded by the length of a list in the proof (Merkle walk <= |queue|+|auths|, "
+  "next-layer outputs <= |queries| x coset size); cost_bound_partial: an annotated per-phase cost formula is <= A_L + B_L x size(proof); "
+  "without validation the sampling loop IS value-driven (example). Wall time and memory cannot be exhibited by the model: every extreme-value "
+  "mutant (each numeric field in {0,1,2,48,49,2^16..2^128,P-1}, alone and with consistent re-declarations) is also run in an isolated child "
+  "process of the REAL verifier under a wall-clock and address-space limit and must stay within a fixed multiple of the honest run.",
+  "No instrumented interpreter ties the cost formula to the model's step count (UNPROVED block in the file); hash/callback costs are parameters; time/RSS are measured, not proved.",
+  "Lean 4 machine-checked proof (partial) + isolated-process time/RSS measurement of the real verifier", "7/C17"),
+ 'C18': ("proof",
+  "Lean theorems (Props/C18.lean): for ARBITRARY layout ops that do not panic on the arguments the pipeline passes them, StarkProof::verify's "
+  "model never panics — every unwrap / assert / index / checked subtraction of stark, commit, verify, oods, fri, layer, formula, first/last "
+  "layer, queries, domains, pow, table/vector decommit is dominated by a check (one lemma per function, incl. the invariant that x-inverses "
+  "stay non-zero through all FRI layers); for the six static layouts the TRANSLATED evaluators pass a kernel-checked syntactic bounds check, so "
+  "the ONLY panic of verify is a field division by zero inside the autogenerated code (a Fiat-Shamir challenge hitting a root of a "
+  "denominator, ~2^-240 per denominator) — stated as the one explicit exception; config validation and both public-input functions never "
+  "panic. Tied to the code by a malformed stream (every vector emptied / truncated / shifted / lengthened, every numeric field at 20 extreme "
+  "values, consistent re-declarations reaching deep into the pipeline, pairs) through the real verifier with catch_unwind, the model, and the "
+  "oracle 'never panic'.",
+  "Dynamic layout: real code only (its mod.rs is not modelled). Stack exhaustion of the recursive Merkle walk and allocator aborts are runtime behaviour (an abort is recorded as a panic by the harness).",
+  "Lean 4 machine-checked proof over model + translated programs + malformed-input sweep", "7/C18"),
 }
 
 ORDER = [f'C{i:02d}' for i in range(1, 20)]
